@@ -773,7 +773,7 @@ impl Check for C06 {
         v.extend((0..canaries).map(|k| json!({"seed": seed, "k": 1000 + k, "runs": 8, "canary": true})));
         // wide configurations (129 + input wires) under the balance test
         let wide = if tier == Tier::Quick { 2 } else { 8 };
-        v.extend((0..wide).map(|k| json!({"seed": seed, "k": 2000 + k, "runs": runs / 2, "canary": true, "wide": true})));
+        v.extend((0..wide).map(|k| json!({"seed": seed, "k": 2000 + k, "runs": runs, "canary": true, "wide": true})));
         v
     }
     fn run_case(&self, case: &Value, cx: &CaseCx) -> CaseOut {
